@@ -69,7 +69,7 @@ def alphabets(s):
     """(core alphabet used up to the full length, extended alphabet used for short vectors)"""
     own = G.own_tokens(s)
     tys = G.value_types(s)
-    core = own[:5] + BASE
+    core = own[:5] + BASE + ["-3"] + (["red"] if "enm" in tys else [])
     ext = list(own) + BASE + ["~", "-q", "-3", "red", "007", "+5", "5x", "99999999999"]
     # the other dash form of every own name (--x for -x, -x for --x): is_short must be told apart
     for t in own:
@@ -209,7 +209,7 @@ def batches(rng, tier):
                 continue
             core, _ = alphabets(s)
             ops += ex_ops(s["id"], n, core)
-        yield Batch(f"exhaustive-core-len{n}", ops, exhaustive=True, note=f"all vectors of length {n} over each shape's core alphabet (own names, 5, foo, -, --, --zz)")
+        yield Batch(f"exhaustive-core-len{n}", ops, exhaustive=True, note=f"all vectors of length {n} over each shape's core alphabet (own names, 5, foo, -, --, --zz, -3, red)")
     for n in range(1, short + 1):
         ops = []
         for s in SHAPES:
